@@ -657,3 +657,198 @@ func Subst(t *Term, m map[string]*Term) *Term {
 	n.key = ""
 	return &n
 }
+
+// symbols collects the free variable and uninterpreted-function names of t.
+func (t *Term) symbols(into map[string]bool) {
+	switch t.Op {
+	case "var":
+		into[t.Name] = true
+		return
+	case "app":
+		into["@"+t.Name] = true
+	case "int", "str", "bool":
+		return
+	}
+	for _, a := range t.Args {
+		a.symbols(into)
+	}
+}
+
+// SliceHyps keeps the hypotheses in the cone of influence of the goal: those
+// sharing a symbol, transitively, with it. Dropping hypotheses only weakens
+// the antecedent, so unsat for the slice implies unsat for the whole query.
+// Uninterpreted language predicates and library functions do not connect
+// hypotheses by themselves (only through their arguments).
+func SliceHyps(hyps []*Term, goal *Term) []*Term {
+	if goal == nil || len(hyps) < 8 {
+		return hyps
+	}
+	type hs struct {
+		t    *Term
+		syms map[string]bool
+		in   bool
+	}
+	items := make([]*hs, len(hyps))
+	for i, h := range hyps {
+		m := map[string]bool{}
+		h.symbols(m)
+		for k := range m {
+			if k[0] == '@' {
+				delete(m, k)
+			}
+		}
+		items[i] = &hs{t: h, syms: m}
+	}
+	live := map[string]bool{}
+	goal.symbols(live)
+	for k := range live {
+		if k[0] == '@' {
+			delete(live, k)
+		}
+	}
+	for changed := true; changed; {
+		changed = false
+		for _, it := range items {
+			if it.in {
+				continue
+			}
+			hit := len(it.syms) == 0 // ground facts (about constants / uninterpreted functions only) are kept
+			for k := range it.syms {
+				if live[k] {
+					hit = true
+					break
+				}
+			}
+			if hit {
+				it.in = true
+				changed = true
+				for k := range it.syms {
+					live[k] = true
+				}
+			}
+		}
+	}
+	var out []*Term
+	for _, it := range items {
+		if it.in {
+			out = append(out, it.t)
+		}
+	}
+	return out
+}
+
+// AbstractPrefix replaces the interpreted predicate str.prefixof by an
+// uninterpreted relation together with ground instances of its order axioms
+// (reflexivity, transitivity over the atoms that occur, a ⊑ a++x). Replacing
+// an interpreted predicate by an uninterpreted one constrained only by true
+// facts weakens the hypotheses, so a proof found this way is sound. It is used
+// for the long write chains of generated code, where word equations make the
+// string solvers time out.
+func AbstractPrefix(hyps []*Term, goal *Term) ([]*Term, *Term) {
+	type pair struct{ a, b *Term }
+	var atoms []pair
+	seen := map[string]bool{}
+	var rw func(t *Term) *Term
+	rw = func(t *Term) *Term {
+		switch t.Op {
+		case "var", "int", "str", "bool":
+			return t
+		}
+		args := make([]*Term, len(t.Args))
+		changed := false
+		for i, a := range t.Args {
+			args[i] = rw(a)
+			if args[i] != a {
+				changed = true
+			}
+		}
+		if t.Op == "str.prefixof" {
+			k := args[0].Key() + "|" + args[1].Key()
+			if !seen[k] {
+				seen[k] = true
+				atoms = append(atoms, pair{args[0], args[1]})
+			}
+			return App("prefix$", SBool, args[0], args[1])
+		}
+		if !changed {
+			return t
+		}
+		n := *t
+		n.Args = args
+		n.key = ""
+		return &n
+	}
+	out := make([]*Term, 0, len(hyps))
+	for _, h := range hyps {
+		out = append(out, rw(h))
+	}
+	var g *Term
+	if goal != nil {
+		g = rw(goal)
+	}
+	P := func(a, b *Term) *Term { return App("prefix$", SBool, a, b) }
+	for _, x := range atoms {
+		if x.a.Key() == x.b.Key() {
+			out = append(out, P(x.a, x.b))
+		}
+		// a ⊑ a ++ rest
+		if x.b.Op == "str.++" && len(x.b.Args) > 0 {
+			if x.a.Op == "str.++" {
+				if len(x.a.Args) <= len(x.b.Args) {
+					ok := true
+					for i := range x.a.Args {
+						if x.a.Args[i].Key() != x.b.Args[i].Key() {
+							ok = false
+						}
+					}
+					if ok {
+						out = append(out, P(x.a, x.b))
+					}
+				}
+			} else if x.a.Key() == x.b.Args[0].Key() {
+				out = append(out, P(x.a, x.b))
+			}
+		}
+	}
+	// one-step transitivity towards the atoms of the goal
+	if goal != nil {
+		goalAtoms := map[string]bool{}
+		var walk func(t *Term)
+		walk = func(t *Term) {
+			if t.Op == "str.prefixof" {
+				goalAtoms[t.Args[0].Key()+"|"+t.Args[1].Key()] = true
+			}
+			for _, a := range t.Args {
+				walk(a)
+			}
+		}
+		walk(goal)
+		have := map[string]pair{}
+		for _, x := range atoms {
+			have[x.a.Key()+"|"+x.b.Key()] = x
+		}
+		for _, gx := range atoms {
+			if !goalAtoms[gx.a.Key()+"|"+gx.b.Key()] {
+				continue
+			}
+			for _, y := range atoms {
+				if y.b.Key() != gx.b.Key() || y.a.Key() == gx.a.Key() {
+					continue
+				}
+				if x, ok := have[gx.a.Key()+"|"+y.a.Key()]; ok {
+					out = append(out, Implies(And(P(x.a, x.b), P(y.a, y.b)), P(gx.a, gx.b)))
+				}
+			}
+		}
+	}
+	if len(atoms) <= 60 {
+		for _, x := range atoms {
+			for _, y := range atoms {
+				if x.b.Key() == y.a.Key() && x.a.Key() != y.b.Key() {
+					out = append(out, Implies(And(P(x.a, x.b), P(y.a, y.b)), P(x.a, y.b)))
+				}
+			}
+		}
+	}
+	return out, g
+}
